@@ -10,3 +10,8 @@ pub mod stubs;
 #[cfg(kani)]
 #[path = "../../common/tracing_stubs.rs"]
 pub mod tracing_stubs;
+
+#[cfg(kani)]
+mod c18_spans;
+#[cfg(kani)]
+mod c18_plan;
